@@ -60,6 +60,25 @@ def parse_dump(src):
         return "(host " + type(e).__name__ + ")"
 
 
+def toggle_semicolons(toks, rng):
+    """optional trailing semicolons: before `end`, `catch`, `finally` (inside a block, after a statement) and at the end of the text"""
+    out = []
+    changed = False
+    for i, t in enumerate(toks):
+        if t[1] == "keyword" and t[0] in ("end", "catch", "finally") and out:
+            prev = out[-1]
+            if prev == (";", "interpunction"):
+                # only a semicolon that follows a statement is optional (not `do ;`)
+                if len(out) >= 2 and out[-2] != (";", "interpunction") and rng.random() < 0.5:
+                    out.pop()
+                    changed = True
+            elif not (prev[1] == "keyword" and prev[0] in ("do", "finally", "all", "catch")) and rng.random() < 0.5:
+                out.append((";", "interpunction"))
+                changed = True
+        out.append(t)
+    return out, changed
+
+
 def run_once(src):
     s = session.ImplSession()
     try:
@@ -74,7 +93,7 @@ def run(ctx):
     g = gensyntax.Gen(rng, maxdepth=4)
     ctx.rule = ("for each program (grammar-generated programs and the runnable programs of the repository's test-suite) N random "
                 "re-renderings over all layout choices at every token boundary (spaces, tabs, LF, CRLF, comments) and literal spellings "
-                "(decimal/hex/binary/underscored ints, single/double quotes with equivalent escapes, != vs <>), optional trailing semicolon "
+                "(decimal/hex/binary/underscored ints, single/double quotes with equivalent escapes, != vs <>), optional trailing semicolons (at the end of the text and before end / catch / finally inside blocks) "
                 "and redundant parentheses around the whole expression; token values, AST (without positions), result, output and error "
                 "value must equal the canonical rendering's; non-trivial = the rendering differs from the canonical one in >= 2 boundaries")
     n_render = 40 if ctx.thorough else 10
@@ -120,6 +139,27 @@ def run(ctx):
                 if k < 3:
                     reqs.append("(parsesrc s:" + proto.enc_str(variant) + ")")
                     meta.append((canon, variant, base_ast))
+            # optional trailing semicolons inside blocks
+            if base_ast not in ("(syn)", "(timeout)", "(deep)") and not base_ast.startswith("(host"):
+                for k in range(3):
+                    t2, changed = toggle_semicolons(toks, rng)
+                    if not changed:
+                        continue
+                    variant = gensyntax.render_tokens(t2, rng, canonical=False)
+                    ctx.seen((p, "semi", variant), nontrivial=True)
+                    ctx.count("semicolon_variants")
+                    rp = {"op": "relayout", "canonical": canon, "variant": variant}
+                    va = parse_dump(variant)
+                    if va != base_ast:
+                        ctx.violation("oracle", f"adding / removing optional trailing semicolons changes the parse: {variant!r} vs {canon!r}", rp)
+                        continue
+                    if base_run is not None and k < 2:
+                        vr = run_once(variant)
+                        if vr != base_run:
+                            ctx.violation("oracle", f"optional trailing semicolons change the result: {vr} vs {base_run}: {variant!r} vs {canon!r}", rp)
+                    if k == 0:
+                        reqs.append("(parsesrc s:" + proto.enc_str(variant) + ")")
+                        meta.append((canon, variant, base_ast))
             # redundant parentheses around an expression program
             if base_ast not in ("(syn)", "(timeout)", "(deep)") and ";" not in canon and not canon.startswith(("def ", "for ", "while ", "require ", "'")):
                 par = "( " + canon + " )"
